@@ -150,7 +150,7 @@ class C13(Check):
         q = tier == 'quick'
         return dict(csv_tracks='all %d column layouts x separators %s x coordinate systems %s, n = %d observations' % (len(layouts()), list(SEPS), SRIDS, 1 if q else 2),
                     gpx='writeToGpx -> readFromFile (trk), ENU and GEO, n = 1..2', wkt='Track.toWKT -> parseWkt, ENU and GEO, n = 2..3',
-                    network='3 edges (2- and 3-vertex geometries, the three orientations, shared junctions) with symbolic vertex coordinates, separators , and ;')
+                    history='GPX export (one file / one file per track) followed by a CSV round trip', network='3 edges (2- and 3-vertex geometries, the three orientations, shared junctions) with symbolic vertex coordinates, separators , and ;')
 
     def jobs(self, tier, seed):
         q = tier == 'quick'
@@ -168,6 +168,8 @@ class C13(Check):
                 js.append(dict(kind='wkt', srid=srid, n=n))
         for sep in ('comma', 'semi'):
             js.append(dict(kind='net', sep=sep, n=0))
+        for one in (True, False):
+            js.append(dict(kind='csv', srid='GEO', sep='comma', lay=[0, 1, 2, 3], n=1, after_gpx=one))    # a history: GPX export (one file / one file per track), then CSV
         return js
 
     def patches(self, job):
@@ -203,6 +205,17 @@ class C13(Check):
         e, n, u, t = job['lay']
         sep = SEPS[job['sep']]
         tr = Track([Obs(make_coords(job['srid'], *xyz), ObsTime(*ts)) for xyz, ts in obs])
+        if 'after_gpx' in job:
+            import shutil
+            d = tempfile.mkdtemp(prefix='verif-c13-', dir=SCRATCH)
+            try:
+                other = Track([Obs(make_coords(job['srid'], 1.0, 2.0, 3.0), ObsTime(2001, 2, 3, 4, 5, 6))], track_id=7)
+                if job['after_gpx']:
+                    tw.TrackWriter.writeToGpx(other, os.path.join(d, 'one.gpx'))
+                else:
+                    tw.TrackWriter.writeToGpx(other, d, oneFile=False)
+            finally:
+                shutil.rmtree(d, ignore_errors=True)
         fd, path = tempfile.mkstemp(suffix='.csv', prefix='verif-c13-', dir=SCRATCH)
         os.close(fd)
         try:
@@ -331,6 +344,14 @@ class C13(Check):
             known_blank = False
         cls = {'blank_separator_with_time': z3.BoolVal(known_blank)}
         TOK = Tokens()
+        from tracklib.core import ObsTime as _OT
+        fmts = (_OT.getPrintFormat(), _OT.getReadFormat())
+        if kind == 'net':
+            # values that stress the text form (the concolic fallback tries them when a path cannot be followed symbolically)
+            xa, ya = obs['a'][0].z, obs['m'][1].z
+            ctx.hints = [xa == z3.Q(1, 32768), ya == z3.Q(-1, 65536), z3.And(xa == z3.Q(1, 32768), ya == z3.Q(-3, 65536))]
+        if kind == 'wkt':
+            ctx.hints = [zreal(obs[0][0][0]) == z3.Q(1, 32768), zreal(obs[-1][0][1]) == z3.Q(-1, 65536)]
         saved = (core.SReal.__format__, core.SReal.__str__, core.SInt.__format__, core.SInt.__str__)
         core.SReal.__format__, core.SReal.__str__ = _fmt_real, _str_real
         core.SInt.__format__, core.SInt.__str__ = _fmt_int, (lambda self: _fmt_int(self, ''))
@@ -347,6 +368,8 @@ class C13(Check):
         finally:
             core.SReal.__format__, core.SReal.__str__, core.SInt.__format__, core.SInt.__str__ = saved
             TOK = None
+            _OT.setPrintFormat(fmts[0])
+            _OT.setReadFormat(fmts[1])
         ctx.reach()
         if kind != 'csv':
             comps, bad = back
@@ -388,6 +411,15 @@ class C13(Check):
                     return
 
     def concrete(self, job, inp):
+        from tracklib.core import ObsTime as _OT
+        fmts = (_OT.getPrintFormat(), _OT.getReadFormat())
+        try:
+            return self._concrete(job, inp)
+        finally:
+            _OT.setPrintFormat(fmts[0])
+            _OT.setReadFormat(fmts[1])
+
+    def _concrete(self, job, inp):
         kind = job['kind']
         obs = self._inputs(None, inp, job) if kind != 'net' else self._inputs_other(None, inp, job)
         if kind != 'csv':
